@@ -87,7 +87,7 @@ Lockstep == /\ \A k \in Keys : loc.files[k] = ref[k] /\ s3[S3Key(k)] = ref[k]
             /\ loc.dirs = UNION {Ancestors(k) : k \in {kk \in Keys : \E i \in 1..Len(hist) :
                                      hist[i].op = "write" /\ KeyOf(hist[i].p) = kk}}
 
-(* The code as it is (S3ListRaw = TRUE) deviates ONLY in the way finding                  *)
+(* The former code (S3ListRaw = TRUE) deviates ONLY in the way finding                     *)
 (* C20-s3-list-sibling-prefix describes: an S3 listing of directory d additionally         *)
 (* returns keys whose name merely starts with the string d (siblings such as d2/.., dbase/..). *)
 SiblingLeak(q) ==
